@@ -72,10 +72,14 @@ fn handle_via(w: &World, i: usize, how: &str) -> N {
     let base = w.nodes.borrow()[i].clone();
     match how {
         // endpoint of an edge handed out by the node's own iterator (a clone made by the iterator)
-        "e" => match base.iter_out().next() {
-            Some(e) => e.source().clone(),
-            None => base,
-        },
+        "e" => {
+            // (the iterator is dropped before `base` is moved: it may own a guard)
+            let first = base.iter_out().next();
+            match first {
+                Some(e) => e.source().clone(),
+                None => base,
+            }
+        }
         // target endpoint of an edge of some OTHER node: obtained by upgrading the weak adjacency entry
         "t" => {
             for n in w.nodes.borrow().iter() {
@@ -671,7 +675,9 @@ fn exec_any(w: &World, st: &[String]) -> String {
             "ecmp" => guarded(|| {
                 let a = w.nodes.borrow()[pusize(&st[1])].clone();
                 let b = w.nodes.borrow()[pusize(&st[3])].clone();
-                match (a.iter_out().nth(pusize(&st[2])), b.iter_out().nth(pusize(&st[4]))) {
+                let ex = a.iter_out().nth(pusize(&st[2]));
+                let ey = b.iter_out().nth(pusize(&st[4]));
+                match (ex, ey) {
                     (Some(x), Some(y)) => format!(
                         "ecmp eq={} cmp={:?} pcmp={:?} rev={} rr={}",
                         (x == y) as u8,
